@@ -4,7 +4,7 @@
 From Coq Require Import Extraction ExtrOcamlBasic.
 From E57 Require Import Base.Prelude Model.Crc Model.Device Model.PagedWriter Model.PagedReader Spec.PageSpec
   Model.BsWrite Model.BsRead Model.Record Spec.BitSpec
-  Model.Prog Model.QueueReader Model.PcWriter Model.FileBin Spec.FormatSpec.
+  Model.Prog Model.QueueReader Model.PcWriter Model.FileBin Model.ReaderOpen Spec.FormatSpec.
 
 Extraction Language OCaml.
 Separate Extraction
@@ -21,6 +21,6 @@ Separate Extraction
   Prog.wrun Prog.rrun Prog.wrun_spec Prog.rrun_spec
   QueueReader.raw_new QueueReader.raw_next QueueReader.qr_available
   PcWriter.get_max_packet_points PcWriter.pcw_new PcWriter.pcw_add_point PcWriter.pcw_finalize
-  FileBin.writer_init FileBin.writer_finalize FileBin.items_write FileBin.item_write FileBin.blob_read FileBin.reader_open FileBin.validate_crc FileBin.raw_xml
+  FileBin.writer_init FileBin.writer_finalize FileBin.items_write FileBin.item_write FileBin.blob_read ReaderOpen.reader_open FileBin.validate_crc ReaderOpen.raw_xml
   FormatSpec.encode_section FormatSpec.decode_section FormatSpec.legal FormatSpec.scene_ok
   PageSpec.paginate PageSpec.strip_crc PageSpec.all_pages_valid PageSpec.ls_init PageSpec.ls_run PageSpec.lr_run.
